@@ -190,3 +190,75 @@ macro_rules! c10_radix_panic {
         });
     };
 }
+
+/// Reference parser for widths up to 128 bits (u128 Horner with overflow tracking): same contract as `ref_parse`.
+#[inline(always)]
+pub fn ref_parse128<const L: usize>(buf: &[u8; L], len: usize, radix: u32, signed: bool, w: u32) -> Result<(bool, u128), (RefKind, bool)> {
+    if len == 0 { return Err((RefKind::Empty, false)); }
+    let neg = signed && buf[0] == b'-';
+    let start = if buf[0] == b'+' || neg { 1 } else { 0 };
+    if start == len { return Err((RefKind::Invalid, true)); }
+    let umax: u128 = if w == 128 { u128::MAX } else { (1u128 << w) - 1 };
+    let smax: u128 = (1u128 << (w - 1)) - 1;
+    let limit = if !signed { umax } else if neg { smax + 1 } else { smax };
+    let mut v: u128 = 0;
+    let mut over = false; // the exact value exceeds u128
+    let mut most: u128 = 0;
+    let mut most_over = false;
+    let mut invalid = false;
+    let mut i = 0;
+    while i < L {
+        if i >= start && i < len {
+            let d = ref_digit(buf[i]);
+            if d as u32 >= radix { invalid = true; } else {
+                match v.checked_mul(radix as u128) { Some(m) => match m.checked_add(d as u128) { Some(s) => v = s, None => over = true }, None => over = true }
+            }
+            match most.checked_mul(radix as u128) { Some(m) => match m.checked_add(radix as u128 - 1) { Some(s) => most = s, None => most_over = true }, None => most_over = true }
+        }
+        i += 1;
+    }
+    if invalid { return Err((RefKind::Invalid, !most_over && most <= limit)); }
+    if !over && v <= limit { Ok((neg, v)) } else { Err((if neg { RefKind::Neg } else { RefKind::Pos }, false)) }
+}
+
+/// from_str_radix on strings of CONCRETE length (every byte symbolic): loop trip counts and chunk boundaries are constants, so strings as long as
+/// the capacity of 64..128-bit types (+ leading zeros / one digit too many) are within reach.
+#[macro_export]
+macro_rules! c10_str_fixed {
+    ($name:ident, $unw:expr, $T:ty, $D:ty, $N:expr, $LEN:expr, $R:expr) => {
+        $crate::harness!($name, $unw, {
+            use $crate::util::*;
+            use $crate::c10::*;
+            use core::num::IntErrorKind;
+            const W: u32 = <$D>::BITS * $N;
+            const S: bool = <$T as BN<$D, $N>>::SIGNED;
+            let buf: [u8; $LEN] = $crate::nd::nd();
+            let mut k = 0;
+            while k < $LEN { $crate::nd::assume(buf[k] < 0x80); k += 1; }
+            let s: &str = unsafe { core::str::from_utf8_unchecked(&buf[..]) };
+            let got = <$T>::from_str_radix(s, $R);
+            let want = ref_parse128::<$LEN>(&buf, $LEN, $R, S, W);
+            match (&got, &want) {
+                (Ok(v), Ok((neg, mag))) => {
+                    let mask: u128 = if W == 128 { u128::MAX } else { (1u128 << W) - 1 };
+                    let e: u128 = if *neg { 0u128.wrapping_sub(*mag) & mask } else { *mag };
+                    assert!(dval_u128(&v.dg()) == e, "Ok(the denoted value)");
+                }
+                (Err(e), Err((kind, must_invalid))) => {
+                    match kind {
+                        RefKind::Empty => assert!(*e.kind() == IntErrorKind::Empty, "empty string: Empty"),
+                        RefKind::Pos => assert!(*e.kind() == IntErrorKind::PosOverflow, "valid but too large: PosOverflow"),
+                        RefKind::Neg => assert!(*e.kind() == IntErrorKind::NegOverflow, "valid but too small: NegOverflow"),
+                        RefKind::Invalid => if *must_invalid { assert!(*e.kind() == IntErrorKind::InvalidDigit, "invalid character in a string too short to overflow: InvalidDigit"); },
+                    }
+                }
+                (Ok(_), Err(_)) => assert!(false, "accepted a string outside the grammar / range"),
+                (Err(_), Ok(_)) => assert!(false, "rejected a valid representable numeral"),
+            }
+            $crate::reach!(want.is_ok() && buf[if S { 1 } else { 0 }] == b'0', "accepted with a leading zero");
+            $crate::reach!(want.is_ok() && buf[$LEN - 1] != b'0', "accepted, non-zero last digit");
+            $crate::reach!(matches!(want, Err((RefKind::Pos, _))), "positive overflow");
+            $crate::reach!(matches!(want, Err((RefKind::Invalid, _))), "invalid digit");
+        });
+    };
+}
